@@ -203,7 +203,7 @@ var baseEnv = initBaseEnv(map[string]Extension{
 		EvalContextHandler: defaultContextHandler,
 	},
 	"round": {
-		Func:               jlib.Round,
+		Func:               round,
 		UndefinedHandler:   defaultUndefinedHandler,
 		EvalContextHandler: defaultContextHandler,
 	},
@@ -443,6 +443,18 @@ func lookup(v reflect.Value, name string) (interface{}, error) {
 	}
 
 	return nil, jtypes.ErrUndefined
+}
+
+// round is jlib.Round with the check that the other numeric
+// functions make: rounding a number next to the largest double
+// to a column left of the decimal point (a negative precision)
+// can give a value that is not a JSON number.
+func round(x float64, prec jtypes.OptionalInt) (float64, error) {
+	res := jlib.Round(x, prec)
+	if math.IsInf(res, 0) && !math.IsInf(x, 0) {
+		return 0, errors.New("the round function has resulted in a value that cannot be represented as a JSON number")
+	}
+	return res, nil
 }
 
 func throw(msg string) (interface{}, error) {
